@@ -239,15 +239,28 @@ pub fn l2_scenario(prop: &str, c: &L2Scen, rec: &mut CaseRec, nontrivial: &dyn F
     }
     let o = execute(prop, c, &e, None, None)?;
     let dir = worker_dir(prop);
+    let mut not_judged: Option<&'static str> = None;
+    let mut output_differs = false;
     let r = (|| -> Result<(), String> {
         if o.run.timed_out {
             return Err(format!("[timeout] bita clone: {}", o.run.describe()));
         }
+        // whether the clone succeeds and what it leaves in the output is what C02 / C03 (and C01, C05) are about; the
+        // checks that observe reads or writes (C06, C13) judge their own oracle only
+        let judges_output = !matches!(prop, "C06" | "C13");
         if !o.run.ok() {
-            return Err(format!("bita clone failed: {}", o.run.describe()));
+            if judges_output {
+                return Err(format!("bita clone failed: {}", o.run.describe()));
+            }
+            not_judged = Some("clone_failed_(judged_by_C01_C02_C03_not_here)");
+            return Ok(());
         }
         let out = o.output.as_ref().ok_or("bita clone exit 0 but no output file")?;
-        check_final_output(s, &e, out)?;
+        match check_final_output(s, &e, out) {
+            Err(m) if judges_output => return Err(m),
+            Err(_) => output_differs = true,
+            Ok(()) => {}
+        }
         match prop {
             "C06" => check_l2_reads(&e, &o, c.http)?,
             "C13" => check_l2_writes(&e, &o)?,
@@ -257,6 +270,11 @@ pub fn l2_scenario(prop: &str, c: &L2Scen, rec: &mut CaseRec, nontrivial: &dyn F
     })();
     clean_dir(&dir);
     r?;
+    if let Some(why) = not_judged {
+        rec.excluded = Some(why.into());
+        return Ok(());
+    }
+    rec.class_if(output_differs, "output_differs_from_source_(recorded_only)");
     classify_scenario(rec, s, &e);
     rec.level = Some("L2");
     rec.class_if(c.http, "http");
